@@ -88,7 +88,8 @@ def gen_history(rng, tier):
         elif r < 0.95:
             ops.append((rng.choice(["simplify_fn", "simplify_m"]), i, rng.choice([1, 2, 100]), rng.random() < 0.5))
         else:
-            ops.append(("read", i, rng.choice(["depth", "cirq", "iterate", "simulate"])))
+            ops.append(("read", i, rng.choice(["depth", "cirq", "iterate", "simulate", "ionq", "projectq", "sympy",
+                                               "openqasm", "qiskit", "qulacs", "stim", "braket", "pennylane", "qdk"])))
     return ops
 
 
@@ -235,6 +236,13 @@ def run_history_impl(ops, want_model_ops=True):
                     elif op[2] == "simulate":
                         if 0 < c.width <= 6:
                             get_backend("cirq").simulate(c)
+                    elif op[2] == "sympy":
+                        if 0 < c.width <= 3 and c.size <= 6:
+                            translate_circuit(c, "sympy")
+                    else:
+                        # every other export format: whether or not its package is installed, asking
+                        # for the translation must leave the circuit as it was
+                        translate_circuit(c, op[2])
                 except Exception:
                     pass        # a read may legitimately refuse (e.g. mixed state without shots); only its effect on the circuit matters
             out = "Ok"
